@@ -29,18 +29,19 @@ type Poster struct {
 }
 
 type Scn struct {
-	Kind    string
-	QSize   int
-	Mask    int
-	Keys    int    // key presses injected (flood)
-	Chunk   int    // keys per chunk
-	Reader  string // drain | none | slow
-	Posters []Poster
-	Query   bool   // query calls from another goroutine during the session
-	Render  int    // frames rendered by the main goroutine meanwhile
-	LoneEsc bool   // a lone ESC goes in right before the end
-	End     string // close | suspend-close | suspend-resume-close | close-close
-	Seed    int64
+	Kind     string
+	QSize    int
+	Mask     int
+	Keys     int    // key presses injected (flood)
+	Chunk    int    // keys per chunk
+	Reader   string // drain | none | slow
+	Posters  []Poster
+	Query    bool   // query calls from another goroutine during the session
+	Render   int    // frames rendered by the main goroutine meanwhile
+	WriteLag bool   // during the end phase the console's Write returns 3 ms after the terminal has answered
+	LoneEsc  bool   // a lone ESC goes in right before the end
+	End      string // close | suspend-close | suspend-resume-close | close-close
+	Seed     int64
 }
 
 type Result struct {
@@ -117,7 +118,14 @@ func Execute(sc *Scn) *Result {
 	caps := responder.FromMask(sc.Mask, false)
 	con := fakecon.New(20, 5)
 	resp := responder.New(caps, 20, 5, con.Inject)
-	con.OnWrite = resp.OnWrite
+	var lag atomic.Bool
+	con.OnWrite = func(p []byte) {
+		resp.OnWrite(p)
+		if lag.Load() {
+			// the reply is on the wire (and may be consumed) before the writer gets control back
+			time.Sleep(3 * time.Millisecond)
+		}
+	}
 	vx, err := vaxis.New(vaxis.Options{WithConsole: con, NoSignals: true, EventQueueSize: sc.QSize})
 	if err != nil {
 		res.What = "start: " + err.Error()
@@ -240,6 +248,7 @@ func Execute(sc *Scn) *Result {
 		con.Inject([]byte("\x1b"))
 		time.Sleep(time.Duration(rng.Intn(14)) * time.Millisecond) // before, around and after the 10 ms timer
 	}
+	lag.Store(sc.WriteLag)
 	switch sc.End {
 	case "close":
 		open.Store(false)
@@ -324,7 +333,7 @@ func Gen(rng *rand.Rand) *Scn {
 	sc := &Scn{Kind: "concurrent", QSize: []int{1, 2, 4, 1024}[rng.Intn(4)], Mask: rng.Intn(1 << 15),
 		Keys: []int{0, 3, 10, 40}[rng.Intn(4)], Chunk: 1 + rng.Intn(5),
 		Reader: []string{"drain", "drain", "slow", "none"}[rng.Intn(4)], Query: rng.Intn(3) == 0, Render: rng.Intn(6),
-		LoneEsc: rng.Intn(3) == 0, End: []string{"close", "close", "close-close", "suspend-close", "suspend-resume-close"}[rng.Intn(5)],
+		WriteLag: rng.Intn(3) == 0, LoneEsc: rng.Intn(3) == 0, End: []string{"close", "close", "close-close", "suspend-close", "suspend-resume-close"}[rng.Intn(5)],
 		Seed: rng.Int63()}
 	if sc.Reader == "none" {
 		// a query needs its reply handled, which needs the event queue to be
@@ -346,6 +355,8 @@ func Fixed() []*Scn {
 		{Kind: "lone-esc-close", QSize: 1024, Keys: 2, Chunk: 2, Reader: "drain", LoneEsc: true, End: "close", Seed: 5},
 		{Kind: "lone-esc-close", QSize: 1024, Keys: 2, Chunk: 2, Reader: "drain", LoneEsc: true, End: "suspend-resume-close", Seed: 6},
 		{Kind: "posters-order", QSize: 4, Reader: "slow", Posters: []Poster{{"blocking", 30}, {"blocking", 30}, {"sync", 20}}, Render: 5, End: "close", Seed: 7},
+		{Kind: "slow-write-close", QSize: 1024, Keys: 2, Chunk: 2, Reader: "drain", WriteLag: true, End: "close", Seed: 9},
+		{Kind: "slow-write-suspend", QSize: 1024, Reader: "drain", WriteLag: true, End: "suspend-resume-close", Seed: 10},
 		{Kind: "query-render", QSize: 1024, Mask: 1<<15 - 1, Reader: "drain", Query: true, Render: 5, End: "close", Seed: 8},
 	}
 }
